@@ -261,6 +261,11 @@ class Ctx:
                 self.dist[k] = self.dist.get(k, 0) + v
 
     def violation(self, key, what, replay):
+        """One violation per key (the first, i.e. after shrinking/ordering by the caller, is the replay)."""
+        for v in self.violations:
+            if v["key"] == key:
+                v["count"] = v.get("count", 1) + 1
+                return
         self.violations.append({"key": key, "what": what, "replay": replay})
 
     def broke(self, kind, name, detail):
